@@ -3,6 +3,7 @@ package main
 import (
 	"fmt"
 	"go/token"
+	"go/types"
 	"strings"
 
 	"golang.org/x/tools/go/ssa"
@@ -17,7 +18,71 @@ func init() {
 	})
 }
 
+// checkConstIndexGuarded: on the publishing path a slice indexed with a constant needs a dominating length test; the
+// publisher runs in one goroutine for the whole stream, so a panic there ends publication for every later message.
+func checkConstIndexGuarded(p *Prog, r *Report, rule string, pkgs ...string) {
+	n := 0
+	for _, f := range p.RepoFns {
+		in := false
+		for _, k := range pkgs {
+			if keyInPkg(fnKey(f), k) {
+				in = true
+			}
+		}
+		if !in {
+			continue
+		}
+		eachInstr(f, func(x ssa.Instruction) {
+			var base, idx ssa.Value
+			switch v := x.(type) {
+			case *ssa.IndexAddr:
+				base, idx = v.X, v.Index
+			case *ssa.Index:
+				base, idx = v.X, v.Index
+			default:
+				return
+			}
+			if _, isSlice := base.Type().Underlying().(*types.Slice); !isSlice {
+				return
+			}
+			k, isC := constInt(idx)
+			if !isC {
+				return
+			}
+			if ms, ok := base.(*ssa.MakeSlice); ok {
+				if l, ok := constInt(ms.Len); ok && l > k {
+					return
+				}
+			}
+			if sl, ok := base.(*ssa.Slice); ok { // slice of a local array (varargs packing)
+				if al, ok := sl.X.(*ssa.Alloc); ok {
+					if _, isArr := al.Type().Underlying().(*types.Pointer).Elem().Underlying().(*types.Array); isArr {
+						return
+					}
+				}
+			}
+			n++
+			proved := false
+			for _, fct := range blockFacts(x.Block()) {
+				a, op, b := fct.X, fct.Op, fct.Y
+				if v, isLen := lenOfValue(b); isLen && v == base {
+					a, b, op = b, a, flipOp(op)
+				}
+				if v, isLen := lenOfValue(a); isLen && v == base {
+					if c, ok := constInt(b); ok && ((op == token.GTR && c >= k) || (op == token.GEQ && c >= k+1) || (op == token.NEQ && c == 0 && k == 0)) {
+						proved = true
+					}
+				}
+			}
+			r.Check(proved, rule, fmt.Sprintf("%s: constant index [%d] into a slice", fnKey(f), k), p.instrPos(x), "dominated by a length test",
+				"a slice of unknown length is indexed with a constant without a length test: an empty slice (for example a data set without records) panics in the publishing goroutine and nothing further is published", true)
+		})
+	}
+	r.Facts[rule+".sites"] = n
+}
+
 func runC19(p *Prog, r *Report, tier string) {
+	checkConstIndexGuarded(p, r, "R-PANIC.index", "pkg/kafka/producer")
 	pub := p.Fn("(*pkg/kafka/producer.KafkaProducer).PublishIPFIXMessages")
 	// the sender is found by role: the function of pkg/kafka/producer that sends on producer.Input()
 	var snd *ssa.Function
